@@ -18,6 +18,7 @@ from a list of adversarial shapes, and after every rename checks
   (4) metadata ids and the action's return value equal the id predicted by a small reference
       (sanitised form authored per target, disambiguation by numeric suffix).
 """
+import gc
 import re
 import json
 
@@ -829,6 +830,8 @@ def run(tier, report):
   n = 64 if tier == 'quick' else 256
   chunks = [cases[i::n] for i in range(n)]
   canons = set()
+  gc.collect()
+  gc.freeze()         # fewer copy-on-write page faults in the forked workers
   for part in pmap(work, [c for c in chunks if c]):
     canons.update(c for c in part.pop('canons') if c)
     E.merge(part)
